@@ -265,7 +265,7 @@ fn main() {
                             }
                         }
                     }
-                    Ok(Err(e)) => writeln!(out, "R 0 parse input:{}", err_class(&e)).unwrap(),
+                    Ok(Err(e)) => writeln!(out, "R 0 parse input:{} {}", err_class(&e), hex::encode(clip(e.to_string()))).unwrap(),
                     Err(pn) => writeln!(out, "R 0 parse inputpanic:{}", clip(pn)).unwrap(),
                 }
             }
